@@ -32,6 +32,10 @@ class InjectedFault(Exception):
     pass
 
 
+class InjectedInterrupt(BaseException):
+    """a failure outside the Exception hierarchy (like KeyboardInterrupt / SystemExit raised inside a user callable)"""
+
+
 class Faulty:
     """Wraps user callables; raises InjectedFault on the k-th invocation (over all wrapped callables) while armed."""
 
@@ -39,6 +43,7 @@ class Faulty:
         self.count = 0
         self.k = None
         self.log = []
+        self.exc_cls = InjectedFault
 
     def wrap(self, name, f):
         def g(*a, **kw):
@@ -47,7 +52,7 @@ class Faulty:
                 import sys
                 caller = sys._getframe(1).f_code.co_name
                 self.log.append(f"{name}@{caller}")
-                raise InjectedFault(f"{name} invocation {self.count}")
+                raise self.exc_cls(f"{name} invocation {self.count}")
             return f(*a, **kw)
         return g
 
@@ -358,8 +363,10 @@ def count_invocations(kind, subdiv):
 
 
 def fault_case(args):
-    kind, subdiv, ks = args
+    kind, subdiv, ks = args[:3]
+    exc = args[3] if len(args) > 3 else "Exception"
     fz = Faulty()
+    fz.exc_cls = InjectedFault if exc == "Exception" else InjectedInterrupt
     obj = make(kind, fz, subdiv)
     vio = []
     names = []
@@ -369,7 +376,7 @@ def fault_case(args):
         try:
             do_compute(kind, obj, N)
             raised = False
-        except InjectedFault:
+        except (InjectedFault, InjectedInterrupt):
             raised = True
         except Exception as ex:  # noqa
             fz.disarm()
@@ -387,7 +394,8 @@ def fault_case(args):
     sig = compare(kind, obs, N, subdiv)
     if sig:
         who = "+".join(names) or "?"
-        vio.append((f"{kind}|fault-in:{who}|{sig}", f"{kind} subdiv={subdiv}: fault at invocation(s) {ks} ({who}), "
+        ecls = "" if exc == "Exception" else "non-Exception-"
+        vio.append((f"{kind}|{ecls}fault-in:{who}|{sig}", f"{kind} subdiv={subdiv}: {exc} at invocation(s) {ks} ({who}), "
                                                     f"compute() repeated: {sig}"))
     return {"vio": vio, "outcome": "same" if not sig else sig, "who": names, "raised": raised_n}
 
@@ -443,6 +451,8 @@ def run(tier, seed):
             ktot[f"{kind}/subdiv={subdiv}"] = K
             for k in range(1, K + 1):
                 fault_jobs.append((kind, subdiv, (k,)))
+                if subdiv is None:
+                    fault_jobs.append((kind, subdiv, (k,), "BaseException"))
             if tier == "thorough" and subdiv is None:
                 for k1 in range(1, K + 1, 3):
                     for k2 in range(1, K + 1, 5):
@@ -455,7 +465,8 @@ def run(tier, seed):
         transitions += 1 + len(j[2])
         outcomes[r["outcome"]] = outcomes.get(r["outcome"], 0) + 1
         for cls, what in r["vio"]:
-            rep.add(Violation(cls, what, {"part": "fault", "kind": j[0], "subdiv": j[1], "ks": list(j[2])}))
+            rep.add(Violation(cls, what, {"part": "fault", "kind": j[0], "subdiv": j[1], "ks": list(j[2]),
+                                          "exc": j[3] if len(j) > 3 else "Exception"}))
     rep.coverage = {
         "states": len(states),
         "transitions": transitions,
@@ -472,7 +483,8 @@ def run(tier, seed):
                     {"fault": list(fault_jobs[len(fault_jobs) // 2])}],
     }
     rep.assumptions = ["identical tensor-network runs agree to ~10*epsrel (1e-10 requested, tolerance 1e-6)",
-                       "faults are raised from user callables only (Hamiltonian, rates, Lindblad operators, field equation)"]
+                       "faults are raised from user callables only (Hamiltonian, rates, Lindblad operators, field equation), as an "
+                       "Exception subclass and as a BaseException subclass (the KeyboardInterrupt / SystemExit family)"]
     return rep
 
 
@@ -485,5 +497,5 @@ def replay(rp):
     elif p == "restart":
         r = restart_case(rp["k"])
     else:
-        r = fault_case((rp["kind"], rp["subdiv"], tuple(rp["ks"])))
+        r = fault_case((rp["kind"], rp["subdiv"], tuple(rp["ks"]), rp.get("exc", "Exception")))
     return {"obs": r["vio"], "violation": r["vio"][0][0] if r["vio"] else None}
